@@ -393,3 +393,93 @@ def fold_codec(ck: Checker, R: str):
              f'gates outside the format): {n_rt} round trips give the same numbers of inputs, outputs and gates and the same truth table, {n_ref} circuits are refused with CircuitEncodingError, none inside the format',
              '; '.join(probs[:2]), construct='encode_circuit / decode_circuit over the circuit family')
     ck.assume('the codec is folded (bit writer and reader included) over a bounded family of model circuits with <= 4 inputs and <= 6 gates')
+
+
+def fold_database(ck: Checker, R: str):
+    """An in-memory CircuitsDatabase folded end to end (C17, second clause): circuits for every normal-form table over two
+    inputs are added, then every table with 1-2 (3 thorough) outputs is looked up -- normalise, key, decode through the codec,
+    denormalise -- and the answer must compute exactly the requested table on every output in the requested order (through
+    negation, reordering and duplicate outputs), or be None exactly when the normal form is not stored."""
+    repo = ck.repo
+    M = real_model(repo)
+    it = M.interp
+    it.real_super = True
+    dbm = repo.mod('cirbo.circuits_db.db')
+    from .interp import RepoClass
+    from .compose_fold import state_values
+    DB = RepoClass(dbm, dbm.cls('CircuitsDatabase'))
+    rows2 = [r for r in itertools.product((False, True), repeat=4)]
+    normal_rows = [r for r in rows2 if not r[0]]
+
+    def circuit_for(rows):
+        spec = [('a', 'INPUT', ()), ('b', 'INPUT', ())]
+        outs = []
+        for k, row in enumerate(rows):
+            code = ''.join('1' if v else '0' for v in row)
+            t = semantics.CODE_TO_NAME[code]
+            # realised with the types the codec format defines (projections as buffers / negations of one input)
+            t, ops = {'LIFF': ('IFF', ('a',)), 'RIFF': ('IFF', ('b',)), 'LNOT': ('NOT', ('a',)), 'RNOT': ('NOT', ('b',))}.get(t, (t, ('a', 'b')))
+            spec.append((f't{k}', t, ops))
+            outs.append(f't{k}')
+        return M.new_circuit(spec, outs)
+
+    probs = []
+    it.steps = 0
+    db = it.instantiate(DB)
+    it.getattr(dbm, None, db, 'open')()
+    stored = set()
+    skip_some = {(normal_rows[3],), (normal_rows[1], normal_rows[5])}   # left out on purpose: their lookups must answer None
+    import itertools as _it
+    for k in (1, 2):
+        for combo in _it.combinations(normal_rows, k):      # strictly increasing rows = normal form
+            if combo in skip_some:
+                continue
+            it.steps = 0
+            M.den.interp.steps = 0
+            try:
+                it.getattr(dbm, None, db, 'add_circuit')(circuit_for(combo))
+                stored.add(combo)
+            except InterpRaise as e:
+                probs.append(f'adding a circuit for the normal-form table {combo} raises {e.exc_name}')
+    # adding a circuit that is not in normal form is refused
+    try:
+        it.steps = 0
+        it.getattr(dbm, None, db, 'add_circuit')(circuit_for([(True, False, False, False)]))
+        probs.append('a circuit whose table is not in normal form was stored')
+    except InterpRaise as e:
+        if e.exc_name != 'CircuitsDatabaseError':
+            probs.append(f'adding a circuit that is not normalised raises {e.exc_name}')
+    n = 0
+    n_out = (1, 2) if ck.tier == 'quick' else (1, 2, 3)
+    for k in n_out:
+        for tt in itertools.product(rows2, repeat=k):
+            n += 1
+            # the normal form by definition: complement rows starting with 1, sort, drop duplicates
+            nf = tuple(sorted({tuple((not v) for v in r) if r[0] else tuple(r) for r in tt}))
+            it.steps = 0
+            M.den.interp.steps = 0
+            try:
+                got = it.getattr(dbm, None, db, 'get_by_raw_truth_table')([list(r) for r in tt])
+            except InterpRaise as e:
+                probs.append(f'lookup of {tt} raises {e.exc_name}')
+                continue
+            if nf not in stored:
+                if got is not None:
+                    probs.append(f'lookup of {tt} returns a circuit although its normal form {nf} is not stored')
+                continue
+            if got is None:
+                probs.append(f'lookup of {tt} returns nothing although its normal form {nf} is stored')
+                continue
+            g = got._d
+            if len(g['_outputs']) != k or len(g['_inputs']) != 2 or cm.invariant_problems(got):
+                probs.append(f'lookup of {tt}: answer has {len(g["_inputs"])} inputs, {len(g["_outputs"])} outputs / is not well formed')
+                continue
+            table = [[state_values(got, dict(zip(g['_inputs'], bits)))[o] for bits in itertools.product((False, True), repeat=2)] for o in g['_outputs']]
+            if table != [list(r) for r in tt]:
+                probs.append(f'lookup of {tt} returns a circuit computing {table}')
+            if len(probs) > 3:
+                break
+    ck.check(not probs, R, dbm, dbm.func('CircuitsDatabase.get_by_raw_truth_table'), f'an in-memory database folded end to end: {len(stored)} normal-form circuits added, {n} tables looked up (1-{n_out[-1]} outputs over two inputs): '
+             'the answer computes exactly the requested table on every output in order (through negation, reordering, duplicates), None exactly when the normal form is not stored; unnormalised circuits are refused',
+             '; '.join(probs[:2]), construct='CircuitsDatabase add / lookup over all two-input tables')
+    ck.assume('the database is folded in memory over two-input tables; the shipped database files (2 x 349,724 entries) are data and are not analysed')
